@@ -14,180 +14,19 @@
 
 #include <unistd.h>
 
-struct dp { const uint8_t *p; size_t n; };
+#include "fuzz_decode.h"
 
-static unsigned take(struct dp *d)
-{
-        if (d->n == 0)
-                return 0;
-        d->n--;
-        return d->p[d->n];
-}
-
-static unsigned below(struct dp *d, unsigned n) { return n <= 1 ? 0 : take(d) % n; }
-
-static const char *STEMS[] = { "+T", "+TA", "+SET", "Z", "+", "D", "+CM", "#X", "E", "+test", "az", "&F", "", "+VERYLONGCOMMANDNAME_0123456789" };
-static const char *TAGS[] = { "tag", "", "x", "Hello, world", "0123456789012345678901234567890123456789", "\r\n", "#e" };
-static const int CODES[] = { -1, 0, 1, 2, 3, 4, 5, 6, 7, 8, 100, -100 };
-static const size_t NUMSZ[] = { 1, 2, 4, 1, 2, 4, 3, 8 };
-
-/* non-trivial input hashes (for the evidence file) */
-static uint64_t *seen;
-static size_t seen_cap = 1u << 21, seen_n;
-static unsigned long long total_execs, nontrivial_execs;
-static char stats_path[512];
-
-static void dump_stats(void)
-{
-        FILE *f;
-        size_t i;
-        if (!stats_path[0])
-                return;
-        f = fopen(stats_path, "wb");
-        if (!f)
-                return;
-        fprintf(f, "execs %llu nontrivial %llu distinct %zu\n", total_execs, nontrivial_execs, seen_n);
-        for (i = 0; i < seen_cap; i++)
-                if (seen && seen[i])
-                        fwrite(&seen[i], 8, 1, f);
-        fclose(f);
-}
-
-static void note_nontrivial(const uint8_t *data, size_t size)
-{
-        uint64_t h = 1469598103934665603ull;
-        size_t i, k;
-        for (i = 0; i < size; i++)
-                h = (h ^ data[i]) * 1099511628211ull;
-        if (h == 0)
-                h = 1;
-        if (!seen)
-                seen = calloc(seen_cap, 8);
-        nontrivial_execs++;
-        if (seen_n * 2 > seen_cap)
-                return;
-        k = (size_t)(h & (seen_cap - 1));
-        while (seen[k] && seen[k] != h)
-                k = (k + 1) & (seen_cap - 1);
-        if (!seen[k]) {
-                seen[k] = h;
-                seen_n++;
-        }
-}
-
-int LLVMFuzzerInitialize(int *argc, char ***argv)
-{
-        const char *p = getenv("FUZZ_STATS");
-        (void)argc;
-        (void)argv;
-        if (p) {
-                snprintf(stats_path, sizeof stats_path, "%s", p);
-                atexit(dump_stats);
-        }
-        return 0;
-}
+#include "fuzz_common.h"
 
 int LLVMFuzzerTestOneInput(const uint8_t *data, size_t size)
 {
         struct dp d = { data, size };
-        int is_shared, ncmd_, ngrp_, i, k, j, n;
-        size_t cc, uc;
-        char name[64];
+        int ncmd_;
 
         w_reset();
         w_set_output(NULL);
         total_execs++;
-
-        is_shared = below(&d, 2);
-        cc = 6 + below(&d, 43);
-        uc = below(&d, 49);
-        if (is_shared)
-                w_buf(1, 2 * cc + below(&d, 2), 0);
-        else
-                w_buf(0, cc, uc);
-        ncmd_ = 1 + below(&d, 12);
-        if (below(&d, 8) == 0)
-                ncmd_ = (int)(4 * cc) - (int)below(&d, 5);   /* table that fills the packed match-state array (almost) exactly */
-        ngrp_ = 1 + below(&d, 2);
-        for (i = 0; i < ncmd_; i++) {
-                int implicit, hm, nv, has_desc;
-                if (i == 0 || (ngrp_ == 2 && i == ncmd_ / 2))
-                        w_group((const uint8_t *)"g", 1, below(&d, 2), below(&d, 8) == 0);
-                snprintf(name, sizeof name, "%s", STEMS[below(&d, sizeof STEMS / sizeof STEMS[0])]);
-                n = below(&d, 3);
-                for (k = 0; k < n && strlen(name) < 60; k++) {
-                        size_t l = strlen(name);
-                        name[l] = (char)("ABTZaz019+_?!"[below(&d, 13)]);
-                        name[l + 1] = 0;
-                }
-                implicit = below(&d, 10) == 0;
-                hm = implicit ? (int)below(&d, 2) : (int)below(&d, 16);
-                has_desc = below(&d, 4) == 0;
-                w_cmd((const uint8_t *)name, strlen(name), (const uint8_t *)"description text", has_desc ? 1 + below(&d, 16) : 0, has_desc,
-                      below(&d, 6) == 0, below(&d, 10) == 0, below(&d, 12) == 0, implicit, hm);
-                nv = below(&d, 5);
-                for (k = 0; k < nv; k++) {
-                        int type = below(&d, 5);
-                        size_t sz = type < 3 ? NUMSZ[below(&d, 8)] : 1 + below(&d, 64);
-                        uint8_t init[8];
-                        for (j = 0; j < 8; j++)
-                                init[j] = (uint8_t)take(&d);
-                        w_var((const uint8_t *)"v", 1, below(&d, 2), type, sz, below(&d, 3), init, 8, below(&d, 3) == 0, below(&d, 3) == 0,
-                              below(&d, 4) ? 0 : 1 + below(&d, 2), below(&d, 4) ? 0 : 1 + below(&d, 2));
-                }
-                for (k = 0; k < 6; k++) {
-                        int fsm = k / 4 ? 1 : 0, kind = k < 4 ? k : (k == 4 ? 1 : 3);
-                        int ns;
-                        if (!(hm & (1 << kind)))
-                                continue;
-                        ns = below(&d, 5);
-                        for (j = 0; j < ns; j++) {
-                                int code = CODES[below(&d, sizeof CODES / sizeof CODES[0])];
-                                const char *tag = TAGS[below(&d, sizeof TAGS / sizeof TAGS[0])];
-                                int act = below(&d, 6), a1 = 0, a2 = 0;
-                                uint8_t pk[4] = { 0 };
-                                if (act == 1) { act = WA_TRIG; a1 = below(&d, ncmd_); a2 = below(&d, 4); }
-                                else if (act == 2) { act = WA_HOLDEXIT; a1 = below(&d, 2); }
-                                else if (act == 3) { act = WA_POKE; a1 = i; a2 = below(&d, 4); pk[0] = (uint8_t)take(&d); pk[1] = (uint8_t)take(&d); }
-                                else act = 0;
-                                w_script_step(fsm, kind, code, below(&d, 3), (const uint8_t *)tag, strlen(tag), act, a1, a2, pk, 2);
-                        }
-                }
-        }
-        n = below(&d, 9);
-        {
-                long step = 0;
-                for (i = 0; i < n; i++) {
-                        int kind = below(&d, 8);
-                        step += below(&d, 64);
-                        if (kind <= 3)
-                                w_action(0, step, WA_TRIG, below(&d, ncmd_), below(&d, 4), NULL, 0);
-                        else if (kind == 4)
-                                w_action(0, step, WA_HOLDEXIT, below(&d, 2), 0, NULL, 0);
-                        else if (kind == 5)
-                                w_action(0, step, WA_ISBUFFERED, below(&d, ncmd_), (int)below(&d, 3) * 2 - 1, NULL, 0);
-                        else if (kind == 6)
-                                w_action(0, step, WA_SETDIS, below(&d, ncmd_), below(&d, 2), NULL, 0);
-                        else
-                                w_action(0, step, WA_ISFULL, 0, 0, NULL, 0);
-                }
-        }
-        for (i = 1; i <= 3; i++)
-                w_action(2, i, WA_HOLDEXIT, i & 1, 0, NULL, 0);
-        {
-                int arr[8];
-                n = below(&d, 9);
-                for (i = 0; i < n; i++)
-                        arr[i] = below(&d, 6);
-                w_sched(0, arr, n);
-                n = below(&d, 9);
-                for (i = 0; i < n; i++)
-                        arr[i] = below(&d, 6);
-                w_sched(1, arr, n);
-        }
-        if (d.n > 4096)
-                d.n = 4096;
-        w_input(d.p, d.n);
+        ncmd_ = decode_case(&d, 1, 1, 0, 0);
         w_flags(0);
         w_run(30000, 8 * ncmd_ + 64);
 
